@@ -37,6 +37,7 @@ mkprops.emit('/verif/coq/Props/C03.v',
      ('C03_timestamp_spec', 'FatRead.ProofsTime.timestamp_spec', None),
      ('C03_path_resolution_refines', 'FatVol.ProofsDots.resolved_refines', 'FatPath resolution of ANY component list -- "." and ".." included, which _resolve looks up as the dot entries stored in each sub-directory -- on a consistent volume is the walk over the plain tree the volume holds with a stack of the directories passed: "." stays, ".." pops, and at the root neither exists'),
      ('C03_path_resolution_confined', 'FatVol.ProofsDots.resolved_confined', 'whatever a path spells, what it reaches is a node of this volume s tree'),
+     ('C03_path_is_its_normal_form', 'FatVol.ProofsDots.resolved_is_normalised_path', 'what a dotted path reaches is what its dot-free normal form (Spec.lexnorm: "." dropped, "x/.." cancelled, both kept at the root) reaches in the volume s tree'),
      ('C03_dot_skipped', 'FatVol.ProofsDots.twalkd_dot', None),
      ('C03_dotdot_cancels', 'FatVol.ProofsDots.twalkd_dotdot', 'lexical normalisation is sound below the root: "x/.." cancels when x names a directory'),
      ('C03_dots_example', 'FatVol.ProofsDotsEx.FV_dots_example', 'non-vacuity: a volume grown by a guarded history is in VolInv; /d/e/../f.txt reaches the 700-byte file, "." and ".." at the root reach nothing, a file is not a directory'),
